@@ -37,7 +37,7 @@ CHECK = {
              "ChainArbitrator.Start, re-deliver close event / historical spends / sweeper answers, continue the same script. Each crash execution is compared with the reference. "
              "non-trivial = a close was delivered with W>0 and at least one crash fired, the node restarted and the execution was compared to the end; distinct = distinct event-trace hash",
         states_measure="distinct (close kind, arbitrator state, unresolved-contract count) tuples after each block, plus (close kind, in-memory state) at each crash",
-        expected_probes=["fault_crash_before", "fault_crash_after", "fault_second_crash",
+        expected_probes=["fault_crash_before", "fault_crash_after", "fault_second_crash", "probe_second_level_tx_with_fee_input",
                          "probe_crash_at_CommitState", "probe_crash_at_LogContractResolutions", "probe_crash_at_InsertConfirmedCommitSet",
                          "probe_crash_at_InsertUnresolvedContracts", "probe_crash_at_SwapContract", "probe_crash_at_ResolveContract",
                          "probe_crash_at_checkpointContract", "probe_crash_at_WipeHistory",
